@@ -497,6 +497,9 @@ class C03(Prop):
         out += [(PC(s), "scale") for s in gen.scale_cases(rng)]
         # trees built through the public constructors (values a parse never yields included): compile must
         # answer with a program or an error for every tree of the shape a parse returns
+        for deg in ["T Type 0", "And T Type 0 A Print", "Or T Type 0 T Type 1 File", "A PrintFormatted 0", "A FilePrintFormatted S 0",
+                    "T Name S", "T Pool S", "T XattrMatch S S", "A FilePrint S", "Not T Type 0"]:
+            out.append(("TC 0 - 2f " + deg, "api-tree"))
         for code in [0, 0o777, 0o1000, 0xd7ff, 0xd800, 0xdabc, 0xdfff, 0xe000, 0xffff]:
             out.append(("TC 0 - 2f A PrintFormatted 3 F Name X Ascii %d X Newline" % code, "api-tree"))
             out.append(("TC 1 0 2f Or T Name S78 A FilePrintFormatted S66 1 X Ascii %d" % code, "api-tree"))
@@ -544,7 +547,7 @@ class C03(Prop):
 
 # ------------------------------------------------------------------------------------------- C04
 
-C04_ALPHABET = ['"', "\\", "~", "%", "(", ")", ";", "#", "\n", "\t", "\x01", "é", "a", " "]
+C04_ALPHABET = ['"', "\\", "~", "%", "(", ")", ";", "#", "\n", "\r", "\t", "\x01", "é", "a", " "]
 
 
 def quote_any(s):
@@ -571,6 +574,17 @@ class C04(Prop):
 
     def cases(self, tier, rng):
         out = []
+        # strings no parse can put there: every string position of a tree built through the public constructors
+        # (a format LITERAL holding a backslash or a quote, for instance: the format parser never yields one)
+        api = ['"', "\\", "C:\\", "a\\nb", "a\"b", "\\\"", "~", "~~", "a\r\nb", "\n", ") (display 1) (", "é\\", ""] \
+            + (["".join(rng.choice(C04_ALPHABET) for _ in range(rng.randint(1, 6))) for _ in range(40 if tier == "quick" else 2000)])
+        for u in api:
+            h = sstr_(u)
+            for t in ["T Name %s", "T InsensitivePath %s", "T Pool %s", "T Xattr %s", "T XattrMatch %s S76", "T XattrMatch S6b %s",
+                      "A FilePrint %s", "A FilePrintNull %s", "A FilePrintFormatted %s 1 F Name",
+                      "A PrintFormatted 1 L %s", "A PrintFormatted 3 F Name L %s X Newline", "A FilePrintFormatted S66 2 L %s L %s",
+                      "A PrintFormatted 1 F XAttr %s"]:
+                out.append(("TC 0 - 2f " + t.replace("%s", h), "api-string"))
         full = 2 if tier == "quick" else 3
         for kw in ["-name", "-iname", "-path", "-ipath", "-pool", "-xattr", "-fprint", "-fprint0"]:
             L = 3 if (kw == "-name" or tier != "quick") else full
@@ -671,6 +685,11 @@ def members(rng):
             q = gen.quote(rng, gen.word(rng, 0.2))
             if q:
                 out.append([kw, q])
+    for kw in gen.STR_TESTS_OK + gen.STR_ACTIONS_OK + ["-regex"]:
+        for v in ["a  b", "a\tb", "a\nb", " a", "a ", "  ", "x \t y", "a\r\nb"]:
+            out.append([kw, rng.choice(["'%s'", '"%s"']) % v])
+    out.append(["-xattr-match", "'user.k'", "'  v '"])
+    out.append(["-printf", "'%p  %u\\n'"])
     for kw in gen.BARE_TESTS_OK + gen.BARE_TESTS_UNSUP + gen.BARE_ACTIONS_OK + gen.BARE_ACTIONS_UNSUP + ["-depth"]:
         out.append([kw])
     for _ in range(20):
@@ -1111,6 +1130,7 @@ OUT_ACTIONS = ["-print", "-print0", "-print-file-fid", "-fprint f1", "-fprint f2
                # file names an implementation might treat specially: empty, the standard streams, a dash
                "-fprint ''", "-fprint0 \"\"", "-fprintf '' '%p'", "-fprint /dev/stdout", "-fprint0 /dev/stdout",
                "-fprint /dev/stderr", "-fprint -", "-fprintf /dev/stdout '%p\\n'",
+               "-fprint d//f", "-fprint d/f", "-fprint0 d/./f", "-fprint d/f/", "-fprint /tmp/.", "-fprint0 /usr/../tmp", "-fprint .",
                # a raw line feed inside literal format text (not the \n escape): in the middle, at the end
                "-printf '%p\nz'", "-printf 'a\nb %s\n'", "-printf '%p z\n'", "-fprintf f1 'x\ny'",
                "-quit"]
@@ -1463,7 +1483,8 @@ class C15(Prop):
                 if r < 0.4:
                     items.append("%s %s" % (rng.choice(["-name", "-iname", "-path", "-ipath"]), rng.choice(pats)))
                 elif r < 0.8:
-                    items.append(rng.choice(["-print", "-print0", "-fprint o1", "-fprint o2", "-fprint0 o1", "-fprintf o3 '%p'", "-printf '%s\\n'", "-print-file-fid"]))
+                    items.append(rng.choice(["-print", "-print0", "-fprint o1", "-fprint o2", "-fprint0 o1", "-fprintf o3 '%p'", "-printf '%s\\n'", "-print-file-fid"]
+                                            + ["-fprint " + p_ for p_ in FS_PATHS[5:]]))
                 elif r < 0.93:
                     items.append("%s %s%d" % (rng.choice(gen.TIME_KW), gen.sign(rng), rng.randint(0, 50)))
                 else:
@@ -1808,7 +1829,11 @@ class C19(Prop):
 
 # ------------------------------------------------------------------------------------------- C20
 
-HOSTILE_PATHS = ["a \nb", "a\t\nb", "a\r\nb", " lead", "trail ", "two  spaces", "\n", "tab\t",
+# paths that EXIST on any host but are not in canonical form, and several spellings of one file: a library that
+# consults the file system (canonicalize) or normalises paths answers differently for them
+FS_PATHS = [".", "..", "./", "/.", "//", "/tmp/.", "/tmp/..", "/usr/./lib", "/usr/../usr/lib", "/proc/self/..", "/dev/./null",
+            "d//f", "d/f", "d/./f", "d/f/", "./d/f", "d/../d/f"]
+HOSTILE_PATHS = FS_PATHS + ["a \nb", "a\t\nb", "a\r\nb", " lead", "trail ", "two  spaces", "\n", "tab\t",
                  "lipe", "find", "lambda", "#t", "0", "mdt0", "let*", "/mnt/éé\"x", "/日本語\\mdt0", "été \"2024\"/mdt", "💾\"", "/mnt/lustré\\mdt0",
                  "/dev/mdt0", "/", "", "a b", "x\"y", "back\\slash", "q\\", "\"", "é☃", "~a~%", "(;#|", "new\nline", "t\tab", "z" * 10000,
                  "\") (system \"id\") (\"",
